@@ -20,6 +20,7 @@ import NeoModel.Proofs.FeesNative
 import NeoModel.Proofs.FeesFields
 import NeoModel.Proofs.FeesFrame
 import NeoModel.Proofs.FeesSolvent
+import NeoModel.Proofs.FeesAfterBlock
 namespace NeoModel.C07
 open NeoModel NeoModel.Fees NeoModel.Admission
 open NeoModel.Generated.FeeConsts
@@ -840,5 +841,72 @@ example : Consistent 2 (fun q => if q = (10, 0) then 100 else 1000)
 
 example : ((scratchAdd 2 (fun q => if q = (10, 0) then 100 else 1000) [sT 1 [10] 60 [], sT 2 [11, 10] 30 []] (sT 3 [10] 40 [2])).2.map (·.hash)) = [1, 3] := by
   decide
+
+end NeoModel.C07
+
+namespace NeoModel.C07
+open NeoModel NeoModel.Fees NeoModel.Admission NeoModel.Pack
+open NeoModel.Generated.FeeConsts
+
+/-! ## 10. the filter as the pool runs it after a block (scratch pool of the block instead of the ledger lookup) -/
+
+/-- **stillRelevantAfter_sound.** `RemoveStale` drives the filter with the scratch pool of the block just accepted:
+`mempool.HasConflicts` replaces the ledger lookup. For a transaction with any number of signers that was not blocked by
+an on-chain record before the block: if that form of the filter keeps it after block `blk` (whose transactions are stored
+the way `StoreAsTransaction` stores them), the chain part of `VerifyTx` accepts it on the new state — in particular no
+transaction of the block signed by ANY of its signers names it. (`HasConflicts` drops `t` whenever some block transaction
+names it, whoever signed that; dropping less — e.g. only when the sender of `t` signed — would break this theorem, see
+the example below.) -/
+theorem stillRelevantAfter_sound (c0 c : Chain) (blk : List Tx) (t : Tx)
+    (h0 : hasTransaction (c0.lookup t.hash) (t.signers.map (·.account)) c0.height c0.mtb = none)
+    (hok : recOk c0.height (c0.lookup t.hash))
+    (hh : c.height = c0.height + 1) (hm : c.mtb = c0.mtb) (hl : c.lookup = storeBlock c0.lookup c.height blk)
+    (h1 : t.sysFee ≤ c.maxBlockSysFee) (h2 : t.scriptOk = true) (h3 : t.size ≤ maxTransactionSize)
+    (hstd : ∀ s ∈ t.signers, Wit.isStandard s.wit = true →
+      ∃ ver, StdWit c s.wit ver ∧ (calculate c.base ver).1 ≤ c.maxVerGas)
+    (h : stillRelevantAfter c blk t = true) : admit c (freePool t) t = none := by
+  have hb : blockHasConflicts blk t = false := by
+    unfold stillRelevantAfter at h
+    split at h; · simp at h
+    split at h; · simp at h
+    split at h; · simp at h
+    rename_i a; simpa using a
+  simp only [blockHasConflicts, Bool.or_eq_false_iff] at hb
+  have hsame : c.lookup t.hash = c0.lookup t.hash := by
+    rw [hl]; exact storeBlock_untouched _ t blk _ hb.1.1 hb.1.2
+  have hn : hasTransaction (c.lookup t.hash) (t.signers.map (·.account)) c.height c.mtb = none := by
+    rw [hsame, hh, hm]; exact hasTransaction_next _ _ _ _ hok h0
+  exact stillRelevant_sound c t h1 h2 h3 hstd (stillRelevant_of_after c blk t hn h)
+
+/-! non-vacuity: `t2` is sent by account 10 and co-signed by account 11. -/
+
+def t2 : Tx :=
+  { hash := 40, version := 0, scriptLen := 1, scriptOk := true, sysFee := 100, netFee := 250 * 1000 + 2 * 983520, validUntil := 20,
+    size := 250, signers := [⟨10, false, .std true (emitBytes exSig) (sigScript exKey)⟩, ⟨11, false, .std true (emitBytes exSig) (sigScript exKey)⟩],
+    attrs := [] }
+/-- a block transaction signed by the co-signer (11) only that names `t2`; and an unrelated one. -/
+def yCo : Tx := { t2 with hash := 41, signers := [⟨11, false, .std true (emitBytes exSig) (sigScript exKey)⟩], attrs := [.conflicts 40], netFee := 2000000 }
+def yOther : Tx := { yCo with hash := 42, attrs := [.conflicts 77] }
+
+def exAfter (blk : List Tx) : Chain := { exChain with height := 11, lookup := storeBlock exChain.lookup 11 blk }
+
+/-- after a block with an unrelated transaction `t2` is kept, and the theorem gives its admissibility. -/
+example : stillRelevantAfter (exAfter [yOther]) [yOther] t2 = true ∧ admit (exAfter [yOther]) (freePool t2) t2 = none := by
+  have hr : stillRelevantAfter (exAfter [yOther]) [yOther] t2 = true := by decide
+  refine ⟨hr, stillRelevantAfter_sound exChain (exAfter [yOther]) [yOther] t2 (by decide) trivial rfl rfl rfl (by decide) rfl (by decide) ?_ hr⟩
+  intro s hs _
+  have : s.wit = .std true (emitBytes exSig) (sigScript exKey) := by
+    simp only [t2, List.mem_cons, List.mem_nil_iff, or_false] at hs
+    rcases hs with rfl | rfl <;> rfl
+  rw [this]
+  exact ⟨sigScript exKey, StdWit.sig exKey exSig (by simp [exKey]) (by simp [exSig]) rfl rfl, by
+    show (calculate exChain.base (sigScript exKey)).1 ≤ _
+    rw [exCalc]; decide⟩
+
+/-- after a block in which the CO-SIGNER's transaction names `t2` the filter drops `t2`, and rightly so: the ledger
+(`dao.HasTransaction` on the records the block left) refuses it, although its sender signed nothing in the block. -/
+example : stillRelevantAfter (exAfter [yCo]) [yCo] t2 = false
+    ∧ admit (exAfter [yCo]) (freePool t2) t2 = some .hasConflicts
+    ∧ (accounts yCo).contains (sender t2) = false := by decide
 
 end NeoModel.C07
